@@ -3,6 +3,7 @@ package main
 // C10 — the request server is a faithful adapter in both directions.
 
 import (
+	"context"
 	"encoding/binary"
 	"errors"
 	"fmt"
@@ -59,14 +60,14 @@ func (b recBase) Fileread(q *sftp.Request) (io.ReaderAt, error) {
 	if b.r.ret != nil {
 		return nil, b.r.ret
 	}
-	return &memFile{}, nil
+	return &memFile{data: []byte("0123456789")}, nil
 }
 func (b recBase) Filewrite(q *sftp.Request) (io.WriterAt, error) {
 	b.r.add("Filewrite", q)
 	if b.r.ret != nil {
 		return nil, b.r.ret
 	}
-	return &memFile{}, nil
+	return &memFile{data: []byte("0123456789")}, nil
 }
 func (b recBase) Filecmd(q *sftp.Request) error { b.r.add("Filecmd", q); return b.r.ret }
 func (b recBase) Filelist(q *sftp.Request) (sftp.ListerAt, error) {
@@ -84,7 +85,7 @@ func (b withOpenFile) OpenFile(q *sftp.Request) (sftp.WriterAtReaderAt, error) {
 	if b.r.ret != nil {
 		return nil, b.r.ret
 	}
-	return &memFile{}, nil
+	return &memFile{data: []byte("0123456789")}, nil
 }
 
 type cmdPR struct{ recBase }
@@ -190,7 +191,10 @@ type errSpec struct {
 	wrap, base string
 	errno      syscall.Errno
 	fx         uint32
+	sentinel   int // base "other": 0 a fresh error; 1.. other well-known error values that are failures, not one of the special categories
 }
+
+var c10OtherSentinels = []error{nil, io.ErrUnexpectedEOF, io.ErrClosedPipe, io.ErrShortWrite, os.ErrClosed, os.ErrInvalid, context.DeadlineExceeded, io.ErrNoProgress}
 
 func (e errSpec) build() error {
 	var b error
@@ -210,6 +214,9 @@ func (e errSpec) build() error {
 			sftp.ErrSSHFxNoConnection, sftp.ErrSSHFxConnectionLost, sftp.ErrSSHFxOpUnsupported}[e.fx]
 	default:
 		b = errors.New("some text")
+		if e.sentinel > 0 {
+			b = c10OtherSentinels[e.sentinel]
+		}
 	}
 	switch e.wrap {
 	case "path":
@@ -306,6 +313,9 @@ func runC10(c *Ctx) {
 		for e := 1; e <= 40; e++ {
 			specs = append(specs, errSpec{wrap: w, base: "errno", errno: syscall.Errno(e)})
 		}
+		for k := 1; k < len(c10OtherSentinels); k++ {
+			specs = append(specs, errSpec{wrap: w, base: "other", sentinel: k})
+		}
 		for f := 0; f <= 8; f++ {
 			specs = append(specs, errSpec{wrap: w, base: "fx", fx: uint32(f)})
 		}
@@ -314,7 +324,7 @@ func runC10(c *Ctx) {
 		err := s.build()
 		code := sftp.VerifStatusCode(err)
 		back := sftp.VerifNormalise(code)
-		n := c.Case("status", kvs("wrap", s.wrap), kvs("base", s.base), kvx("errno", uint64(s.errno)), kvx("fx", uint64(s.fx)))
+		n := c.Case("status", kvs("wrap", s.wrap), kvs("base", s.base), kvx("errno", uint64(s.errno)), kvx("fx", uint64(s.fx)), kvi("sentinel", s.sentinel))
 		if s.base != "nil" {
 			c.NT(n)
 		}
@@ -426,6 +436,19 @@ func runC10(c *Ctx) {
 								ok, why = false, "open-access: READ on a handle opened with READ was not answered"
 							} else if code, isStatus := r2.statusCode(); isStatus && code != 1 {
 								ok, why = false, fmt.Sprintf("open-access: READ on a handle opened with pflags %x (READ set) was refused with status %d", pf, code)
+							}
+							// data as given: the handler's file holds "0123456789"; a READ that runs over its end is answered with the bytes
+							// that are there (the handler's ReadAt returns them together with io.EOF), one at the end with EOF
+							if r3, e3 := rs.do(rawRead(17, h, 4, 100)); e3 != nil {
+								ok, why = false, "data-as-given: READ across the end of the file was not answered"
+							} else if d, isData := r3.data(); !isData || string(d) != "456789" {
+								code, _ := r3.statusCode()
+								ok, why = false, fmt.Sprintf("data-as-given: READ of 100 bytes at offset 4 of a 10-byte file on a handle opened with pflags %x returned %s %q (status %d), the handler gave 6 bytes", pf, pgTypeName(r3.Typ), d, code)
+							}
+							if r4, e4 := rs.do(rawRead(18, h, 10, 5)); e4 != nil {
+								ok, why = false, "data-as-given: READ at the end of the file was not answered"
+							} else if code, isStatus := r4.statusCode(); !isStatus || code != 1 {
+								ok, why = false, fmt.Sprintf("data-as-given: READ at the end of the file answered %s (status %d), not EOF", pgTypeName(r4.Typ), code)
 							}
 						}
 						if pf&2 != 0 {
@@ -545,7 +568,7 @@ func runC10(c *Ctx) {
 			if got != want && !(want == "ok") {
 				ok, why = false, fmt.Sprintf("handler error %s/%s returned from %s reaches the client as %s, want %s", s.wrap, s.base, op, got, want)
 			}
-			if strings.HasPrefix(want, "failure:4") && s.base == "other" && e != nil && !strings.Contains(e.Error(), "some text") {
+			if strings.HasPrefix(want, "failure:4") && s.base == "other" && s.sentinel == 0 && e != nil && !strings.Contains(e.Error(), "some text") {
 				ok, why = false, "failure does not carry the handler's error text: "+e.Error()
 			}
 		}
